@@ -636,6 +636,10 @@ def make_runner_class():
             who = {"handle_stdin": "in", "handle_stdout": "out", "handle_stderr": "err"}.get(
                 getattr(tgt, "__name__", None), "main")
             with e.cv:
+                if e.stdin_closes and not self.using_pty:
+                    # a real pipe: Popen's stdin object is closed, .fileno() raises
+                    e.stdin_log.append("rejected:" + who)
+                    raise ValueError("I/O operation on closed file")
                 e.stdin_writes.append((who, bytes(data)))
                 e.stdin_log.append("w:" + who)
 
@@ -751,7 +755,12 @@ def run_scripted(case):
     else:
         kwargs["in_stream"] = False
     if "echo_stdin" in case:
-        kwargs["echo_stdin"] = case["echo_stdin"]
+        if case.get("echo_from") == "config":
+            overrides.setdefault("run", {})["echo_stdin"] = case["echo_stdin"]
+            ctx = Context(Config(overrides=overrides))
+            runner = cls(ctx, env, start_error=case.get("start_error"))
+        else:
+            kwargs["echo_stdin"] = case["echo_stdin"]
     if "timeout" in case:
         kwargs["timeout"] = case["timeout"]
 
